@@ -882,6 +882,11 @@ class Node:
         if not attr_node.is_mapping():
             return
 
+        if value_attribute is None:
+            for _, value_node in attr_node.yaml_node.value:
+                if not isinstance(value_node, yaml.MappingNode):
+                    return      # not a mapping of mappings
+
         new_value = list()
         for key_node, value_node in attr_node.yaml_node.value:
             if (
